@@ -61,6 +61,7 @@ type State struct {
 	nextRef string
 	ghost   map[string]Val
 	dead    bool
+	snaps   map[string]*State // per held lock: the state right after its acquisition
 }
 
 func (s *State) clone() *State {
@@ -75,6 +76,12 @@ func (s *State) clone() *State {
 	}
 	for k, v := range s.ghost {
 		n.ghost[k] = v
+	}
+	if len(s.snaps) > 0 {
+		n.snaps = make(map[string]*State, len(s.snaps))
+		for k, v := range s.snaps {
+			n.snaps[k] = v
+		}
 	}
 	return n
 }
@@ -442,6 +449,15 @@ func (e *Exec) mergeStates(ins []*State) *State {
 		return e.fork(live[0])
 	}
 	out := live[0].clone()
+	// acquisition snapshots survive a merge only when all branches agree
+	for k, v := range out.snaps {
+		for _, l := range live[1:] {
+			if l.snaps[k] != v {
+				delete(out.snaps, k)
+				break
+			}
+		}
+	}
 	e.stateSeq++
 	out.id = e.stateSeq
 	for _, l := range live {
